@@ -28,7 +28,7 @@ Fresh(e) ==
      fs |-> [ents |-> e.snap.ents, inos |-> e.snap.inos],
      fds |-> <<>>, dirty |-> {}, syncfail |-> {}, pubs |-> <<>>, supplied |-> {}, planted |-> {},
      cur |-> <<>>, steps |-> <<>>, listed |-> <<>>, tlisted |-> <<>>, created |-> <<>>, opfds |-> <<>>, opens |-> <<>>,
-     faulted |-> <<>>, faultcall |-> <<>>, unlinkfailed |-> <<>>, prune |-> <<>>, lastset |-> <<>>, lastok |-> <<>>, maybeset |-> <<>>, lastret |-> <<>>, absmap |-> <<>>, atcall |-> <<>>, pruned |-> <<>>, plisted |-> <<>>, tattempt |-> <<>>,
+     faulted |-> <<>>, faultcall |-> <<>>, unlinkfailed |-> <<>>, prune |-> <<>>, lastset |-> <<>>, lastok |-> <<>>, maybeset |-> <<>>, lastret |-> <<>>, absmap |-> <<>>, atcall |-> <<>>, pruned |-> <<>>, plisted |-> <<>>, tattempt |-> <<>>, published |-> <<>>, plistedAfter |-> <<>>,
      viol |-> {}, fsmis |-> {}, nsys |-> 0]
 
 InitSt == Fresh([job |-> "", run |-> 0, gran |-> 0, atime |-> "relatime", snap |-> EmptyFS])
@@ -83,6 +83,11 @@ SysStep(s, e) ==
                     THEN Put(s.plisted, p, Get(s.plisted, p, {}) \cup {DirId(e.fdpath)}) ELSE s.plisted
         tattempt2 == IF InLib(e) /\ e.call = "open" /\ Has(e, "path") /\ "DIRECTORY" \in FlagSet(e) /\ IsKismetTemp(s.cfg, DirId(e.path))
                      THEN Put(s.tattempt, p, Get(s.tattempt, p, {}) \cup {DirId(e.path)}) ELSE s.tattempt
+        \* after its own publication an operation only maintains: listings of cache directories from then on
+        published2 == IF InLib(e) /\ e.call \in {"rename", "link"} /\ e.res = "ok" /\ Has(e, "path2") /\ IsCacheDir(s.cfg, DirOf(e.path2))
+                      THEN Put(s.published, p, TRUE) ELSE s.published
+        plistedAfter2 == IF InLib(e) /\ e.call = "getdents" /\ e.res = "ok" /\ Has(e, "fdpath") /\ IsCacheDir(s.cfg, DirId(e.fdpath)) /\ Get(s.published, p, FALSE)
+                         THEN Put(s.plistedAfter, p, Get(s.plistedAfter, p, {}) \cup {DirId(e.fdpath)}) ELSE s.plistedAfter
         opfds2 == IF InLib(e) /\ e.call = "open" /\ e.res = "ok" THEN Put(s.opfds, p, Get(s.opfds, p, {}) \cup {e.fd})
                   ELSE IF e.call = "close" THEN Put(s.opfds, p, Get(s.opfds, p, {}) \ {e.fd}) ELSE s.opfds
         opens2 == IF InLib(e) /\ e.call = "open" /\ ~Outside(e.path)
@@ -112,7 +117,7 @@ SysStep(s, e) ==
                  !.pubs = NewPubs(s.cfg, fs2, s.pubs), !.created = created2, !.planted = planted2,
                  !.steps = steps2, !.listed = listed2, !.tlisted = tlisted2, !.opfds = opfds2, !.opens = opens2,
                  !.faulted = faulted2, !.faultcall = faultcall2, !.unlinkfailed = unlinkfailed2, !.supplied = supplied2,
-                 !.prune = prune2, !.pruned = pruned2, !.plisted = plisted2, !.tattempt = tattempt2, !.absmap = absmap2, !.nsys = @ + 1,
+                 !.prune = prune2, !.pruned = pruned2, !.plisted = plisted2, !.tattempt = tattempt2, !.published = published2, !.plistedAfter = plistedAfter2, !.absmap = absmap2, !.nsys = @ + 1,
                  !.fsmis = @ \cup (IF predok THEN {} ELSE {<<e.seq, "pred">>}) \cup (IF effok THEN {} ELSE {<<e.seq, "eff">>})]
 
 ExtStep(s, e) ==    \* crash / age / adversary / mark: trust the snapshot
@@ -130,7 +135,7 @@ CallStep(s, e) ==
     LET p == e.p IN
     [s EXCEPT !.cur = Put(@, p, e), !.steps = Put(@, p, 0), !.listed = Put(@, p, 0), !.tlisted = Put(@, p, {}),
               !.created = Put(@, p, {}), !.opfds = Put(@, p, {}), !.opens = Put(@, p, <<>>),
-              !.unlinkfailed = Put(@, p, {}), !.atcall = Put(@, p, s.fs), !.pruned = Put(@, p, FALSE), !.plisted = Put(@, p, {}), !.tattempt = Put(@, p, {}),
+              !.unlinkfailed = Put(@, p, {}), !.atcall = Put(@, p, s.fs), !.pruned = Put(@, p, FALSE), !.plisted = Put(@, p, {}), !.tattempt = Put(@, p, {}), !.published = Put(@, p, FALSE), !.plistedAfter = Put(@, p, {}),
               !.supplied = @ \cup (IF Has(e, "val") /\ Has(e, "key") THEN {<<e.key, e.val>>} ELSE {})]
 
 GoneStep(s, e) == [s EXCEPT !.fds = Del(@, e.p)]
@@ -206,7 +211,7 @@ Violations(s, e, s2) ==
               \cup Mon("Bounded", Bounded(s2, e.p)) \cup Mon("FdBound", FdBound(cfg, s2, e.p))
           ELSE {})
     \cup (IF isRet THEN
-              Mon("NoErr", NoErr(e)) \cup Mon("RejectedOK", RejectedOK(s, e)) \cup Mon("StaleGone", StaleGone(cfg, s, e))
+              Mon("NoErr", NoErr(e)) \cup Mon("ExpectFail", ExpectFail(cfg, e)) \cup Mon("RejectedOK", RejectedOK(s, e)) \cup Mon("StaleGone", StaleGone(cfg, s, e))
               \cup Mon("FaultOK", FaultOK(cfg, s, e)) \cup Mon("FollowUpOK", FollowUpOK(s, e)) \cup Mon("NoLeak", NoLeak(cfg, s, e))
               \cup Mon("NoResidue", NoResidue(s, e)) \cup Mon("TwoOpensPerDir", TwoOpensPerDir(s, e))
               \cup Mon("NoLaterLookups", NoLaterLookups(cfg, s, e)) \cup Mon("TouchMarksFirstOnly", TouchMarksFirstOnly(cfg, s, e)) \cup Mon("OneCopy", OneCopy(cfg, s)) \cup Mon("UnexplainedLoss", UnexplainedLoss(cfg, s, e, s2))
@@ -221,6 +226,11 @@ Violations(s, e, s2) ==
                                  ELSE PruneOKV(s.prune[e.p].fs, s2.fs, s.prune[e.p].d, capd, CHOOSE v \in van : TRUE))
                   \cup Mon("ReprieveUnmarks", ReprieveUnmarks(s.prune[e.p].fs, s2.fs, s.prune[e.p].d, s.prune[e.p].rs))
           ELSE {})
+    \* C07: maintenance of a directory (here: of another shard, after the write's own publication) is the Second Chance pass AND the temp
+    \* sweep -- a sweep of a shard's temp directory at that point without the pass over the shard itself is no maintenance
+    \cup (IF isSys /\ InLib(e) /\ e.call = "getdents" /\ e.res = "ok" /\ Has(e, "fdpath") /\ IsKismetTemp(cfg, DirId(e.fdpath))
+             /\ Get(s.published, e.p, FALSE)
+          THEN Mon("MaintPrunes", ParentOfTemp(DirId(e.fdpath)) \in Get(s.plistedAfter, e.p, {})) ELSE {})
     \cup (IF e.e = "stuck" THEN Mon("SoloCompletes", FALSE) ELSE {})
 
 \* ---- the trace specification ---------------------------------------------
